@@ -64,12 +64,17 @@ def build(spec: dict) -> Node:  # noqa: C901, PLR0911, PLR0912
         items = []
         for i, k in enumerate(kids):
             mode = spec.get("modes", ["weight"])[i % len(spec.get("modes", ["weight"]))]
-            items.append((6, k.w) if mode == "given" else ("weight", 2, k.w) if mode == "weight2" else k.w)
+            if mode == "pack" and k.spec["w"] not in ("Text", "Edit", "Button", "CheckBox"):
+                mode = "weight"  # only widgets with a meaningful pack() are sized by their content
+            items.append((6, k.w) if mode == "given" else ("weight", 2, k.w) if mode == "weight2" else ("pack", k.w) if mode == "pack" else k.w)
         return Node(spec, "flow", urwid.Columns(items, dividechars=spec.get("div", 0)), kids)
     if t == "GridFlow":
         return Node(spec, "flow", urwid.GridFlow([k.w for k in kids], spec.get("cw", 6), 1, 0, "left"), kids)
     if t == "Padding":
-        return Node(spec, kids[0].kind, urwid.Padding(kids[0].w, left=spec.get("left", 1), right=spec.get("right", 1)), kids)
+        width = spec.get("width", "relative")
+        if width == "clip" and (kids[0].kind != "flow" or kids[0].spec["w"] not in ("Text", "Edit", "Button", "CheckBox")):
+            width = "relative"
+        return Node(spec, kids[0].kind, urwid.Padding(kids[0].w, left=spec.get("left", 1), right=spec.get("right", 1), **({"width": "clip"} if width == "clip" else {})), kids)
     if t == "AttrMap":
         return Node(spec, kids[0].kind, urwid.AttrMap(kids[0].w, spec.get("attr", "a"), spec.get("fattr", "f")), kids)
     if t == "LineBox":
@@ -146,6 +151,14 @@ class _Run:
             if isinstance(a.w, urwid.Edit) and bool(a.w._shift_view_to_cursor) != bool(b.w._shift_view_to_cursor):  # noqa: SLF001
                 return True
         return False
+
+    def listbox_focus_request_pending(self) -> bool:
+        """A ListBox resolves a deferred set_focus() inside its next render/rows/keypress by calling
+        move_cursor_to_coords() on the new focus widget, which for an Edit consults the view-shift flag just
+        like a click does: such an operation counts as input for the known finding about that flag."""
+        import urwid  # noqa: PLC0415
+
+        return any(isinstance(n.w, urwid.ListBox) and n.w.set_focus_pending not in (None, "first selectable") for n in all_nodes(self.tree))
 
     def violate(self, clause, sig, msg=""):
         if self.has_scrollable and clause in ("C06.1", "C06.2", "C06.3", "C06.5"):
@@ -384,7 +397,7 @@ class _Run:
                     res.fault("gc_collect")
                     self.check_pool(i)
                     continue
-                if k in ("mouse", "key") and not self.shift_flag_diverged and self.edit_flags_differ():
+                if (k in ("mouse", "key") or self.listbox_focus_request_pending()) and not self.shift_flag_diverged and self.edit_flags_differ():
                     self.shift_flag_diverged = True
                     res.probe("edit_view_shift_flag_diverged")
                 h_before = urwid.CanvasCache.hits
@@ -498,11 +511,19 @@ class CacheEngine(Engine):
             if r < 0.5:
                 return {"w": "Pile", "kids": [self.gen_tree(rng, "flow", depth - 1, budget) for _ in range(rng.randint(1, 3))]}
             if r < 0.62:
-                return {"w": "Columns", "kids": [self.gen_tree(rng, "flow", depth - 1, budget) for _ in range(rng.randint(1, 3))], "modes": [rng.choice(["weight", "given", "weight2"]) for _ in range(3)], "div": rng.randint(0, 1)}
+                cspec = {"w": "Columns", "kids": [self.gen_tree(rng, "flow", depth - 1, budget) for _ in range(rng.randint(1, 3))], "modes": [rng.choice(["weight", "given", "weight2", "pack", "pack"]) for _ in range(3)], "div": rng.randint(0, 1)}
+                for ci in range(len(cspec["kids"])):
+                    # a column sized by its content is hidden while that content is empty
+                    if cspec["modes"][ci] == "pack" and rng.random() < 0.5:
+                        cspec["kids"][ci] = {"w": "Text", "text": rng.choice(["", "", "ab"]), "wrap": "space", "align": "left"}
+                return cspec
             if r < 0.68:
                 return {"w": "GridFlow", "kids": [self.gen_tree(rng, "flow", 0, budget) for _ in range(rng.randint(1, 4))], "cw": rng.choice([4, 6, 9])}
             if r < 0.76:
-                return {"w": "Padding", "kids": [self.gen_tree(rng, "flow", depth - 1, budget)], "left": rng.randint(0, 2), "right": rng.randint(0, 2)}
+                pspec = {"w": "Padding", "kids": [self.gen_tree(rng, "flow", depth - 1, budget)], "left": rng.choice([0, 1, 2, 2, 9]), "right": rng.choice([0, 1, 2, 9]), "width": rng.choice(["relative", "relative", "clip"])}
+                if pspec["width"] == "clip" and rng.random() < 0.6:
+                    pspec["kids"] = [{"w": "Text", "text": rng.choice(["", "", "ab"]), "wrap": "space", "align": "left"}]
+                return pspec
             if r < 0.84:
                 return {"w": "AttrMap", "kids": [self.gen_tree(rng, "flow", depth - 1, budget)], "attr": "a", "fattr": "f"}
             if r < 0.90:
